@@ -14,6 +14,8 @@ import (
 )
 
 type SpecEnv struct {
+	assume bool    // the clause being evaluated will be assumed (not proved)
+	facts  *[]Term // type facts of the heap values read while evaluating (shared by nested environments)
 	x      *Exec
 	st     *State // heap view used for reads (never receives assumptions)
 	old    *SpecEnv
@@ -31,6 +33,7 @@ func specFail(format string, args ...any) { panic(specErr{fmt.Sprintf(format, ar
 // view returns a copy of st that shares the heap but discards assumptions.
 func (st *State) view() *State {
 	n := &State{x: st.x, heap: st.heap, regs: st.regs, cells: st.cells, fresh: st.fresh, events: st.events}
+	n.sink = &[]Term{}
 	return n
 }
 
@@ -39,7 +42,7 @@ func (st *State) viewWithHeap(h map[string]Term) *State {
 	for k, v := range h {
 		hh[k] = v
 	}
-	return &State{x: st.x, heap: hh, regs: st.regs, cells: st.cells, fresh: st.fresh}
+	return &State{x: st.x, heap: hh, regs: st.regs, cells: st.cells, fresh: st.fresh, sink: &[]Term{}}
 }
 
 func (env *SpecEnv) child() *SpecEnv {
@@ -62,11 +65,59 @@ func (env *SpecEnv) EvalBool(n *SNode) (t Term, err error) {
 			panic(r)
 		}
 	}()
+	env.resetFacts()
 	v := env.eval(n)
 	if v.K != VTerm || v.T.Sort != SBool {
 		return Term{}, fmt.Errorf("clause is not boolean: %s", n.Text)
 	}
-	return v.T, nil
+	// heap values read by the clause satisfy their type invariants (ranges, slice headers):
+	// hypotheses of a goal, additional conjuncts of an assumption
+	if env.assume {
+		return And(append(env.takeFacts(0), v.T)...), nil
+	}
+	return Implies(And(env.takeFacts(0)...), v.T), nil
+}
+
+// EvalAssume evaluates a clause that is going to be assumed.
+func (env *SpecEnv) EvalAssume(n *SNode) (Term, error) {
+	env.assume = true
+	defer func() { env.assume = false }()
+	return env.EvalBool(n)
+}
+
+// all views reachable from this environment share one fact list
+func (env *SpecEnv) resetFacts() {
+	shared := &[]Term{}
+	for e := env; e != nil; e = e.old {
+		if e.st != nil {
+			e.st.sink = shared
+		}
+		e.facts = shared
+		if e.old == e {
+			break
+		}
+	}
+}
+
+func (env *SpecEnv) factCount() int {
+	if env.facts == nil {
+		return 0
+	}
+	return len(*env.facts)
+}
+
+// takeFacts removes and returns the facts collected beyond the first `keep` ones.
+func (env *SpecEnv) takeFacts(keep int) []Term {
+	if env.facts == nil {
+		return nil
+	}
+	all := *env.facts
+	if keep > len(all) {
+		keep = len(all)
+	}
+	rest := append([]Term{}, all[keep:]...)
+	*env.facts = all[:keep]
+	return rest
 }
 
 func (env *SpecEnv) EvalVal(n *SNode) (v Val, err error) {
@@ -79,6 +130,7 @@ func (env *SpecEnv) EvalVal(n *SNode) (v Val, err error) {
 			panic(r)
 		}
 	}()
+	env.resetFacts()
 	return env.eval(n), nil
 }
 
@@ -100,19 +152,30 @@ func (env *SpecEnv) eval(n *SNode) Val {
 			c.vars[name] = v
 			guards = append(guards, env.x.enc.typeInv(typ, v)...)
 		}
+		before := env.factCount()
 		body := c.eval(n.A)
 		if body.T.Sort != SBool {
 			specFail("quantifier body is not boolean: %s", n.Text)
 		}
+		facts := env.takeFacts(before)
 		var inner Term
-		if n.Kind == "forall" {
-			inner = Implies(And(guards...), body.T)
-		} else {
-			inner = And(append(guards, body.T)...)
+		switch {
+		case n.Kind == "forall" && env.assume:
+			// hypothesis position: the (valid) type facts of the values read are extra conjuncts
+			inner = Implies(And(guards...), And(append(facts, body.T)...))
+		case n.Kind == "forall":
+			inner = Implies(And(append(guards, facts...)...), body.T)
+		case env.assume:
+			inner = And(append(append(guards, facts...), body.T)...)
+		default:
+			// goal position of an existential: facts are valid, they may not strengthen the goal
+			inner = And(append(guards, Implies(And(facts...), body.T))...)
 		}
 		return TV(Term{fmt.Sprintf("(%s (%s) %s)", n.Kind, strings.Join(binders, " "), inner.S), SBool})
 	case "imp":
+		env.assume = !env.assume // the antecedent is in the opposite polarity
 		a := env.evalB(n.A)
+		env.assume = !env.assume
 		if a.S == "false" {
 			return TV(TTrue) // lazy: the consequent may be undefined (e.g. result() of a call that did not happen)
 		}
@@ -475,7 +538,9 @@ func (env *SpecEnv) evalGo(n *SNode, e ast.Expr) Val {
 	case *ast.UnaryExpr:
 		switch t.Op {
 		case token.NOT:
+			env.assume = !env.assume
 			v := env.evalGo(n, t.X)
+			env.assume = !env.assume
 			return Val{K: VTerm, T: Not(v.T), Typ: v.Typ}
 		case token.SUB:
 			v := env.evalGo(n, t.X)
@@ -752,6 +817,12 @@ func (env *SpecEnv) evalCall(n *SNode, c *ast.CallExpr) Val {
 					o = env
 				}
 				return TV(And(Not(Eq(v.T, TNull)), Not(o.st.isAlloc(v.T)), env.st.isAlloc(v.T)))
+			case "disjoint":
+				a, b := env.evalGo(n, c.Args[0]), env.evalGo(n, c.Args[1])
+				if a.K != VSlice || b.K != VSlice {
+					specFail("disjoint needs two slices")
+				}
+				return TV(Or(Eq(a.Parts[0].T, TNull), Eq(b.Parts[0].T, TNull), Not(Eq(a.Parts[0].T, b.Parts[0].T))))
 			case "allocated":
 				v := env.evalGo(n, c.Args[0])
 				return TV(env.st.isAlloc(v.T))
